@@ -717,6 +717,239 @@ fn gen_scenario(ctx: &mut Ctx) -> Scenario {
     Scenario { prog, ops }
 }
 
+// ---------------------------------------------------------------------------------------------
+// C19, component level: the window types of window.rs through their public API, tied to the
+// step / checkpoint / restore functions of the Lean model
+// ---------------------------------------------------------------------------------------------
+use varpulis_runtime::event::SharedEvent;
+use varpulis_runtime::window::{
+    CountWindow, PartitionedSessionWindow, PartitionedSlidingWindow, PartitionedTumblingWindow, SessionWindow,
+    SlidingCountWindow, SlidingWindow, TumblingWindow,
+};
+
+enum Win {
+    Tumbling(TumblingWindow), Sliding(SlidingWindow), Count(CountWindow), SlidingCount(SlidingCountWindow), Session(SessionWindow),
+    PTumbling(PartitionedTumblingWindow), PSliding(PartitionedSlidingWindow), PSession(PartitionedSessionWindow),
+}
+
+#[derive(Clone, Copy)]
+struct WCfg { kind: &'static str, dur: i64, slide: i64, n: usize, m: usize }
+
+fn mk_win(c: &WCfg) -> Win {
+    let d = chrono::Duration::nanoseconds(c.dur);
+    let sl = chrono::Duration::nanoseconds(c.slide);
+    match c.kind {
+        "tumbling" => Win::Tumbling(TumblingWindow::new(d)),
+        "sliding" => Win::Sliding(SlidingWindow::new(d, sl)),
+        "count" => Win::Count(CountWindow::new(c.n)),
+        "slidingCount" => Win::SlidingCount(SlidingCountWindow::new(c.n, c.m)),
+        "session" => Win::Session(SessionWindow::new(d)),
+        "pTumbling" => Win::PTumbling(PartitionedTumblingWindow::new("k".into(), d)),
+        "pSliding" => Win::PSliding(PartitionedSlidingWindow::new("k".into(), d, sl)),
+        _ => Win::PSession(PartitionedSessionWindow::new("k".into(), d)),
+    }
+}
+
+fn em_tok(e: &SharedEvent) -> String {
+    format!("{}@{}", e.get("id").map(|v| v.to_partition_key().into_owned()).unwrap_or_else(|| "?".into()), e.timestamp.timestamp_nanos_opt().unwrap_or(0))
+}
+fn em_text(o: Option<Vec<SharedEvent>>) -> String {
+    match o { None => "-".into(), Some(l) => format!("[{}]", l.iter().map(em_tok).collect::<Vec<_>>().join(",")) }
+}
+fn em_parts(parts: Vec<(String, Vec<SharedEvent>)>) -> String {
+    let mut t: Vec<String> = parts.iter().flat_map(|(_, l)| l.iter().map(em_tok)).collect();
+    t.sort();
+    format!("[{}]", t.join(","))
+}
+
+impl Win {
+    fn add(&mut self, e: Event) -> String {
+        let e = std::sync::Arc::new(e);
+        em_text(match self {
+            Win::Tumbling(w) => w.add_shared(e), Win::Sliding(w) => w.add_shared(e), Win::Count(w) => w.add_shared(e),
+            Win::SlidingCount(w) => w.add_shared(e), Win::Session(w) => w.add_shared(e),
+            Win::PTumbling(w) => w.add_shared(e), Win::PSliding(w) => w.add_shared(e), Win::PSession(w) => w.add_shared(e),
+        })
+    }
+    fn wm(&mut self, t_ns: i64) -> String {
+        let t = chrono::DateTime::from_timestamp_nanos(t_ns);
+        match self {
+            Win::Tumbling(w) => em_text(w.advance_watermark(t)), Win::Sliding(w) => em_text(w.advance_watermark(t)),
+            Win::Session(w) => em_text(w.advance_watermark(t)),
+            Win::Count(_) | Win::SlidingCount(_) => "-".into(),
+            Win::PTumbling(w) => em_parts(w.advance_watermark(t)), Win::PSliding(w) => em_parts(w.advance_watermark(t)),
+            Win::PSession(w) => em_parts(w.advance_watermark(t)),
+        }
+    }
+    fn checkpoint(&self) -> WindowCheckpoint {
+        match self {
+            Win::Tumbling(w) => w.checkpoint(), Win::Sliding(w) => w.checkpoint(), Win::Count(w) => w.checkpoint(),
+            Win::SlidingCount(w) => w.checkpoint(), Win::Session(w) => w.checkpoint(),
+            Win::PTumbling(w) => w.checkpoint(), Win::PSliding(w) => w.checkpoint(), Win::PSession(w) => w.checkpoint(),
+        }
+    }
+    fn restore(&mut self, cp: &WindowCheckpoint) {
+        match self {
+            Win::Tumbling(w) => w.restore(cp), Win::Sliding(w) => w.restore(cp), Win::Count(w) => w.restore(cp),
+            Win::SlidingCount(w) => w.restore(cp), Win::Session(w) => w.restore(cp),
+            Win::PTumbling(w) => w.restore(cp), Win::PSliding(w) => w.restore(cp), Win::PSession(w) => w.restore(cp),
+        }
+    }
+}
+
+fn run_window_scenario(ctx: &mut Ctx) {
+    const KINDS: &[&str] = &["tumbling", "sliding", "count", "slidingCount", "slidingCount", "session", "pTumbling", "pSliding", "pSession"];
+    let r = &mut ctx.rng;
+    let kind = *r.pick(KINDS);
+    let slide = (1 + r.below(2)) as i64 * 500_000_000;
+    let cfg = WCfg { kind, dur: if kind.ends_with("liding") { slide * (1 + r.below(3)) as i64 } else { (1 + r.below(4)) as i64 * 500_000_000 }, slide, n: 2 + r.below(3) as usize, m: 1 + r.below(3) as usize };
+    let subms = r.chance(1, 3);
+    let ooo = r.chance(1, 4);
+    let n_ops = 5 + r.below(if ctx.thorough { 16 } else { 10 });
+    let n_cuts = 1 + r.below(2);
+    let cut_at: Vec<u64> = (0..n_cuts).map(|_| r.below(n_ops)).collect();
+    ctx.directive("new");
+    ctx.directive(&format!("wcfg {} {} {} {} {}", cfg.kind, cfg.dur, cfg.slide, cfg.n, cfg.m));
+    ctx.count(&format!("win:{}", kind));
+    if subms { ctx.count("win:sub-ms-scenario"); }
+    let mut a = mk_win(&cfg);
+    let mut b: Option<Win> = None;
+    let mut t_ms: i64 = ctx.rng.range(0, 2) * 1000;
+    for i in 0..n_ops {
+        if cut_at.contains(&i) {
+            let cp = a.checkpoint();
+            let res = catch(std::panic::AssertUnwindSafe(|| {
+                let bytes = codec::serialize(&cp, CheckpointFormat::active()).map_err(|_| ())?;
+                let j = json_tree(&bytes);
+                let cp2: WindowCheckpoint = codec::deserialize(&bytes).map_err(|_| ())?;
+                let mut fresh = mk_win(&cfg);
+                fresh.restore(&cp2);
+                Ok::<(String, Win), ()>((j, fresh))
+            }));
+            match res {
+                Ok(Ok((j, fresh))) => { b = Some(fresh); ctx.case("wcut", &j); }
+                Ok(Err(())) => { ctx.case("wcut", "unreadable"); return; }
+                Err(_) => { ctx.case("wcut", "panic"); return; }
+            }
+            ctx.count("win:cut");
+        }
+        t_ms += *ctx.rng.pick(&[0i64, 1, 250, 250, 500, 500, 750, 1000, 1500, 2500]);
+        if ctx.rng.chance(1, 6) {
+            let t = (t_ms + ctx.rng.range(-600, 900)) * 1_000_000 + if subms { ctx.rng.range(0, 999_999) } else { 0 };
+            let ra = a.wm(t);
+            match b.as_mut() { Some(bw) => { let rb = bw.wm(t); ctx.case(&format!("wwm {}", t), &format!("A={} B={}", ra, rb)); } None => ctx.case(&format!("wwm {}", t), &ra) }
+            ctx.count("win:wm");
+        } else {
+            let mut ts = t_ms * 1_000_000;
+            if ooo && ctx.rng.chance(1, 3) { ts -= ctx.rng.range(0, 2500) * 1_000_000; }
+            if subms { ts += ctx.rng.range(0, 999_999); }
+            let mut f: Vec<(String, Value)> = vec![("id".into(), Value::Int(i as i64))];
+            match ctx.rng.below(8) { 0 => {} 1 => f.push(("k".into(), Value::Int(ctx.rng.range(0, 1)))), _ => f.push(("k".into(), Value::Str((*ctx.rng.pick(&["a", "b", "c"])).into()))) }
+            let e = mk_event("T", ts, f);
+            let l = t_event(&e).text();
+            let ra = a.add(e.clone());
+            match b.as_mut() { Some(bw) => { let rb = bw.add(e); ctx.case(&format!("wadd {}", l), &format!("A={} B={}", ra, rb)); } None => ctx.case(&format!("wadd {}", l), &ra) }
+            ctx.count("win:add");
+        }
+    }
+}
+
+// ---------------------------------------------------------------------------------------------
+// C19, component level: SaseEngine through its public API (event-time state is reachable only here:
+// the engine compiles every VPL sequence with processing-time semantics)
+// ---------------------------------------------------------------------------------------------
+use varpulis_runtime::sase::{CompareOp, MatchResult, PatternBuilder, Predicate, SaseEngine, SasePattern};
+
+fn sev(ty: &str, pred: Option<Predicate>, alias: &str) -> SasePattern {
+    SasePattern::Event { event_type: ty.to_string(), predicate: pred, alias: Some(alias.to_string()) }
+}
+fn cref(field: &str, op: CompareOp, alias: &str, rfield: &str) -> Predicate {
+    Predicate::CompareRef { field: field.to_string(), op, ref_alias: alias.to_string(), ref_field: rfield.to_string() }
+}
+
+struct SaseProg { form: u64, within_ms: Option<u64>, event_time: bool, partition: bool, tags: Vec<&'static str> }
+
+fn mk_sase(p: &SaseProg) -> SaseEngine {
+    let pat = match p.form {
+        0 => PatternBuilder::seq(vec![sev("A", None, "a"), sev("B", None, "b")]),
+        1 => PatternBuilder::seq(vec![sev("A", None, "a"), sev("B", None, "b"), sev("C", None, "c")]),
+        2 => PatternBuilder::seq(vec![sev("A", None, "a"), PatternBuilder::one_or_more(sev("B", None, "b")), sev("C", None, "c")]),
+        3 => PatternBuilder::and(sev("A", None, "a"), sev("B", None, "b")),
+        4 => PatternBuilder::seq(vec![sev("A", None, "a"), sev("B", Some(cref("id", CompareOp::Eq, "a", "id")), "b")]),
+        5 => PatternBuilder::seq(vec![sev("A", None, "a"), PatternBuilder::one_or_more(sev("B", Some(cref("x", CompareOp::Ge, "b", "x")), "b")), sev("C", None, "c")]),
+        _ => PatternBuilder::seq(vec![PatternBuilder::and(sev("A", None, "a"), sev("B", None, "b")), sev("C", None, "c")]),
+    };
+    let pat = match p.within_ms { Some(ms) => PatternBuilder::within(pat, std::time::Duration::from_millis(ms)), None => pat };
+    let mut e = SaseEngine::new(pat);
+    if p.event_time { e = e.with_event_time(); }
+    if p.partition { e = e.with_partition_by("k".to_string()); }
+    e
+}
+
+fn match_text(m: &MatchResult) -> String {
+    let mut caps: Vec<String> = m.captured.iter().map(|(a, e)| format!("{}={}", a, em_tok(e))).collect();
+    caps.sort();
+    format!("<{}|{}>", caps.join(","), m.stack.iter().map(|s| em_tok(&s.event)).collect::<Vec<_>>().join(","))
+}
+fn sase_step(e: &mut SaseEngine, ev: &Event) -> String {
+    let mut ms: Vec<String> = e.process(ev).iter().map(match_text).collect();
+    ms.sort();
+    ms.join(" ")
+}
+
+fn run_sase_scenario(ctx: &mut Ctx) {
+    let form = ctx.rng.below(7);
+    let mut tags: Vec<&'static str> = vec![["api-seq2", "api-seq3", "api-kleene", "api-and", "api-seq-ref", "kleene-self-ref", "api-and-seq"][form as usize]];
+    let event_time = ctx.rng.chance(2, 3);
+    let within_ms = if ctx.rng.chance(1, 2) { Some(1000 + 500 * ctx.rng.below(5)) } else { None };
+    let partition = ctx.rng.chance(1, 3);
+    if event_time { tags.push("event-time"); }
+    if within_ms.is_some() { tags.push("within"); }
+    if partition { tags.push("seq-partitioned"); }
+    let p = SaseProg { form, within_ms, event_time, partition, tags };
+    let subms = ctx.rng.chance(1, 3);
+    let ooo = ctx.rng.chance(1, 5);
+    let n = 4 + ctx.rng.below(if ctx.thorough { 12 } else { 8 }) as usize;
+    let mut evs = Vec::new();
+    let mut t_ms: i64 = 0;
+    for i in 0..n {
+        t_ms += *ctx.rng.pick(&[0i64, 1, 250, 500, 500, 1000, 1500, 2500]);
+        let mut ts = t_ms * 1_000_000;
+        if ooo && ctx.rng.chance(1, 3) { ts -= ctx.rng.range(0, 2000) * 1_000_000; }
+        if subms { ts += ctx.rng.range(0, 999_999); }
+        let ty = *ctx.rng.pick(&["A", "B", "B", "C"]);
+        evs.push(mk_event(ty, ts, vec![("id".into(), Value::Int(i as i64)), ("x".into(), Value::Int(ctx.rng.range(-1, 2))), ("k".into(), Value::Str((*ctx.rng.pick(&["a", "b"])).into()))]));
+    }
+    let run = |skip: usize, mut e: SaseEngine| -> Vec<String> { evs[skip..].iter().map(|ev| sase_step(&mut e, ev)).collect() };
+    let base = run(0, mk_sase(&p));
+    if base != run(0, mk_sase(&p)) { ctx.count("sase:nondeterministic-skipped"); return; }
+    ctx.directive("new");
+    ctx.directive(&format!("prog {} | SaseEngine form={} within={:?} event_time={} partition={}", p.tags.join(","), p.form, p.within_ms, p.event_time, p.partition));
+    for ev in &evs { ctx.directive(&format!("op ev {}", t_event(ev).text())); }
+    for t in &p.tags { ctx.count(&format!("sase:{}", t)); }
+    let mut main = mk_sase(&p);
+    for k in 0..=evs.len() {
+        let cp = main.checkpoint();
+        let l = t_sase(&cp).text();
+        let res = catch(std::panic::AssertUnwindSafe(|| {
+            let bytes = match codec::serialize(&cp, CheckpointFormat::active()) { Ok(b) => b, Err(_) => return "unreadable serialize".to_string() };
+            let cp2: SaseCheckpoint = match codec::deserialize(&bytes) { Ok(c) => c, Err(_) => return "unreadable deserialize".to_string() };
+            let mut fresh = mk_sase(&p);
+            fresh.restore(&cp2);
+            let got: Vec<String> = evs[k..].iter().map(|ev| sase_step(&mut fresh, ev)).collect();
+            let exp = &base[k..];
+            if got.as_slice() == exp { "same".to_string() } else {
+                let i = (0..exp.len()).find(|i| got.get(*i) != exp.get(*i)).unwrap_or(0);
+                format!("diff at={} exp=[{}] got=[{}]", k + i, exp.get(i).cloned().unwrap_or_default(), got.get(i).cloned().unwrap_or_default())
+            }
+        })).unwrap_or_else(|_| "panic".into());
+        if res == "same" { ctx.count("scut:same"); } else { ctx.count("scut:DIFFERENT"); }
+        let sub = evs[..k].iter().any(|e| e.timestamp.timestamp_subsec_nanos() % 1_000_000 != 0);
+        ctx.case(&format!("scut {} {} tags={} subms={} {}", k, evs.len(), p.tags.join(","), if sub { 1 } else { 0 }, l), &res);
+        if k < evs.len() { sase_step(&mut main, &evs[k]); }
+    }
+}
+
 fn wev(ty: &str, ts_ns: i64, id: i64, x: i64, k: &str) -> Op {
     Op::Ev(mk_event(ty, ts_ns, vec![("id".into(), Value::Int(id)), ("x".into(), Value::Int(x)), ("k".into(), Value::Str(k.into()))]))
 }
@@ -756,6 +989,8 @@ fn run_c19(ctx: &mut Ctx) {
     for sc in witness_scenarios() { run_scenario(ctx, &rt, &sc, true, false); }
     let n = if ctx.thorough { 4000 } else { 350 };
     for _ in 0..n { let sc = gen_scenario(ctx); run_scenario(ctx, &rt, &sc, true, false); }
+    for _ in 0..(if ctx.thorough { 6000 } else { 500 }) { run_window_scenario(ctx); }
+    for _ in 0..(if ctx.thorough { 3000 } else { 250 }) { run_sase_scenario(ctx); }
 }
 
 pub fn run(ctx: &mut Ctx, name: &str) {
